@@ -87,7 +87,25 @@ EndPoint(mode, q, R) ==
 (* Envelopes *)
 
 NoSig == <<>>
-Env(recs) == [recs |-> recs, id |-> TRUE, rcode |-> 0, sig |-> NoSig, mid |-> 0, cut |-> FALSE]
+Env(recs) == [recs |-> recs, id |-> TRUE, rcode |-> 0, sig |-> NoSig, mid |-> 0, cut |-> FALSE, gap |-> 0]
+
+(* Time.  The sender paces the stream as it likes: `gap' of an envelope is the   *)
+(* time, in ticks, the receiver waits for it -- from the moment it starts to    *)
+(* read (query sent / previous envelope handed over) to the arrival of the      *)
+(* envelope.  Transfer.ReadTimeout (TimeoutTicks ticks) bounds the wait for ONE *)
+(* envelope: a sender silent for longer has ended the stream early (error);     *)
+(* the duration of the whole transfer -- the sum of the gaps -- is not bounded  *)
+(* by anything: a big zone, a slow link or a pacing sender is a valid transfer. *)
+TimeoutTicks == 3
+Late(e) == e.gap > TimeoutTicks
+
+(* Names.  Domain names compare case-insensitively (RFC 1035 2.3.3, RFC 4343):  *)
+(* the spelling of the zone name in the query and the spelling of the owner     *)
+(* names in the answer (each one of Spellings) denote the same zone whatever    *)
+(* they are.  The receiver below is a function of record types, serials,        *)
+(* header and signature only: the spellings are parameters of a behaviour on    *)
+(* which nothing depends (records are delivered in the spelling received).      *)
+Spellings == {"lower", "upper", "mixed", "mixed2"}
 
 \* cut R into chunks of the given lengths (0 = a message without answer records)
 RECURSIVE Chunks(_, _)
@@ -134,7 +152,8 @@ Fail(r) == [r EXCEPT !.status = "error"]
 
 \* one envelope.  tsig: the receiver has a key configured (then EVERY envelope must verify)
 RStep(mode, q, tsig, key, r, e) ==
-  IF e.cut THEN Fail(r)                                         \* the connection ended inside the message
+  IF Late(e) THEN Fail(r)                                       \* the sender was silent for longer than the read timeout
+  ELSE IF e.cut THEN Fail(r)                                    \* the connection ended inside the message
   ELSE IF tsig /\ SigAmbig(r, e, key) THEN [r EXCEPT !.status = "ambig"]
   ELSE IF tsig /\ ~SigOK(r, e, key) THEN Fail(r)
   ELSE IF ~e.id THEN Fail(r)
